@@ -535,7 +535,15 @@ pub struct VfsWorld {
 
 impl VfsWorld {
     pub fn new(opts: VfsOptions) -> VfsWorld {
-        let vfs = Arc::new(Vfs::new(opts));
+        Self::new_with(opts, false)
+    }
+    /// `evict`: Vfs::set_remove_pseudo_root() — umount also drops the pseudo directories it leaves empty
+    pub fn new_with(opts: VfsOptions, evict: bool) -> VfsWorld {
+        let mut v = Vfs::new(opts);
+        if evict {
+            v.set_remove_pseudo_root();
+        }
+        let vfs = Arc::new(v);
         VfsWorld { srv: Server::new(vfs.clone()), vfs, log: Arc::new(Mutex::new(vec![])) }
     }
     pub fn take_log(&self) -> Vec<(usize, Value)> {
